@@ -21,6 +21,7 @@ import (
 	"fmt"
 	"net/http"
 	"os"
+	"sort"
 	"strconv"
 	"strings"
 	"sync"
@@ -1041,8 +1042,21 @@ func applyPrometheusMerge(pod *corev1.Pod, mesh *meshconfig.MeshConfig) error {
 
 // getPrometheusScrape respect prometheus scrape config
 // not to doing prometheusMerge if this return false
+// sortedAnnotationKeys returns the annotation keys of the pod in sorted order. Several keys can sanitize to the same
+// prometheus annotation (prometheus.io/scrape, prometheus.io.scrape, prometheus_io_scrape); reading them in map order made
+// the injected pod depend on the iteration order of the map.
+func sortedAnnotationKeys(pod *corev1.Pod) []string {
+	keys := make([]string, 0, len(pod.Annotations))
+	for k := range pod.Annotations {
+		keys = append(keys, k)
+	}
+	sort.Strings(keys)
+	return keys
+}
+
 func getPrometheusScrape(pod *corev1.Pod) bool {
-	for k, val := range pod.Annotations {
+	for _, k := range sortedAnnotationKeys(pod) {
+		val := pod.Annotations[k]
 		if strutil.SanitizeLabelName(k) != prometheusScrapeAnnotation {
 			continue
 		}
@@ -1079,7 +1093,8 @@ func clearPrometheusAnnotations(pod *corev1.Pod) {
 func getPrometheusScrapeConfiguration(pod *corev1.Pod) status.PrometheusScrapeConfiguration {
 	cfg := status.PrometheusScrapeConfiguration{}
 
-	for k, val := range pod.Annotations {
+	for _, k := range sortedAnnotationKeys(pod) {
+		val := pod.Annotations[k]
 		anno := strutil.SanitizeLabelName(k)
 		switch anno {
 		case prometheusPortAnnotation:
@@ -1102,7 +1117,8 @@ func getPrometheusScrapeConfiguration(pod *corev1.Pod) status.PrometheusScrapeCo
 }
 
 func getPrometheusPort(pod *corev1.Pod) (string, bool) {
-	for k, val := range pod.Annotations {
+	for _, k := range sortedAnnotationKeys(pod) {
+		val := pod.Annotations[k]
 		if strutil.SanitizeLabelName(k) != prometheusPortAnnotation {
 			continue
 		}
